@@ -392,6 +392,9 @@ func (nfc *NfcSession) ReadFile(fileId uint16) (fileData []byte, err error) {
 		if len(fileData) != totalBytes {
 			return nil, fmt.Errorf("[ReadFile] Data read differs to expected length (exp:%d, act:%d)", totalBytes, len(fileData))
 		}
+	} else {
+		// the whole TLV was already returned by the header read (file of 4 bytes or less)
+		fileData = bytes.Clone(fileBuf.Bytes()[:totalBytes])
 	}
 
 	slog.Debug("ReadFile", "fileId", fileId, "data", utils.BytesToHex(fileData))
